@@ -8,6 +8,7 @@ import BloomVerif.Lemmas.Format
 import BloomVerif.Bridge.Scanner
 import BloomVerif.Bridge.ScannerList
 import BloomVerif.Bridge.Held
+import BloomVerif.Bridge.Chunk
 namespace BloomVerif.C19
 open BloomVerif
 
@@ -182,6 +183,40 @@ example :
   ⟨by decide, by decide, by decide,
    held_section_generated false 100 400 { BloomFilterOffset := 380, BloomFilterSize := 30 } (by decide) (by decide)
      (by decide) (by decide) (by decide) (by decide) (by decide)⟩
+
+/-- **The chunk `readChunkFrom` reads, as regenerated from the Go text** (its extension loop with continue / break
+    and both accumulators): for a region inside int64, a valid non-empty section to start from and any blocks
+    after it, the extent read starts at that section, covers it, stays inside the block filter region, and is
+    no longer than the target unless the section alone is. -/
+theorem chunk_generated_within_region (target rs re : Int) (b : DataBlockMetadata) (following : List DataBlockMetadata)
+    (hrs : 0 ≤ rs) (hre : re ≤ maxInt64) (ht0 : 0 ≤ target) (ht : target ≤ maxInt64)
+    (hv : validSection b rs re = true) (hs : 0 < b.BloomFilterSize) (hall : ∀ x ∈ following, BlockI64 x) :
+    let start := (Gen.readChunkFrom_extent target rs re b following).1
+    let stop := (Gen.readChunkFrom_extent target rs re b following).2.1
+    rs ≤ start ∧ start = b.BloomFilterOffset ∧ b.BloomFilterOffset + b.BloomFilterSize ≤ stop ∧ stop ≤ re ∧
+    (stop - start ≤ target ∨ stop - start = b.BloomFilterSize) := by
+  intro start stop
+  have hg := Bridge.chunkFor_generated target rs re b following hrs hre ht0 ht hv hs hall
+  have hw := chunk_within_region target rs re b following ht0 hv hs
+  have h1 : start = (chunkFor target rs re b following).1 := congrArg Prod.fst hg
+  have h2 : stop = (chunkFor target rs re b following).2 := congrArg Prod.snd hg
+  rw [h1, h2]; exact hw
+
+/-- non-vacuity: a valid 10-byte section at 110 in the region [100,200), followed by an empty section, an adjacent
+    8-byte one (absorbed: the chunk grows to 128), one behind the start (ends the extension) - target 32 -/
+example :
+    let fol : List DataBlockMetadata := [{ BloomFilterOffset := 0, BloomFilterSize := 0 }, { BloomFilterOffset := 120, BloomFilterSize := 8 },
+      { BloomFilterOffset := 104, BloomFilterSize := 4 }, { BloomFilterOffset := 128, BloomFilterSize := 2 }]
+    Gen.readChunkFrom_extent 32 100 200 { BloomFilterOffset := 110, BloomFilterSize := 10 } fol = (110, (128, 2)) ∧
+    ((100 : Int) ≤ 110 ∧ (128 : Int) ≤ 200) := by
+  intro fol
+  have h := chunk_generated_within_region 32 100 200 { BloomFilterOffset := 110, BloomFilterSize := 10 } fol
+    (by decide) (by decide) (by decide) (by decide) (by decide) (by decide)
+    (by intro x hx; simp only [fol, List.mem_cons, List.mem_nil_iff, or_false] at hx
+        rcases hx with rfl | rfl | rfl | rfl <;> (refine ⟨?_, ?_, ?_, ?_⟩ <;> decide))
+  have e : Gen.readChunkFrom_extent 32 100 200 { BloomFilterOffset := 110, BloomFilterSize := 10 } fol = (110, (128, 2)) := by decide
+  rw [e] at h
+  exact ⟨e, h.1, h.2.2.2.1⟩
 
 end BloomVerif.C19
 
